@@ -183,7 +183,7 @@ package eventbus
 //@   ensures [C13.timeout] bus.store != nil && jsonOK(event) && bus.persistenceTimeout > 0 ==>
 //@        cnt(cancel) == 1 && descends(lastarg(Append, 1, Iface), ctx)
 //@   ensures [C13.ctx] bus.store != nil && jsonOK(event) ==> descends(lastarg(Append, 1, Iface), ctx)
-//@   at unlock:EventBus.storeMu assert [C13.offset.cs] (saveErr != nil ==> bus.lastOffset == acq(bus.lastOffset))
+//@   at unlock:EventBus.storeMu assert [C13.offset.cs] {C12,C13} (saveErr != nil ==> bus.lastOffset == acq(bus.lastOffset))
 //@        && (saveErr == nil ==> bus.lastOffset == offset)
 
 // handlerTyped(h): the registry invariant's fact about a registered handler —
